@@ -280,67 +280,87 @@ def gen_extension(spec, rng):
         g.input_names.append(t.name)
         labels.append("new_scalar")
     g.output_names += [t.name for t in new_objs]
+    uid = [0]
+
+    def fresh_fields(have, n):
+        out = []
+        for _ in range(n):
+            f = g.out_field(spec, set())
+            uid[0] += 1
+            f.name = "x%d_%s" % (uid[0], f.name)
+            out.append(f)
+        return out
+
+    extra_iface_fields = {}  # interface name -> fields added to it by this document
+    ext_ifaces, ext_members = {}, {}
+    # phase 1: interfaces get new fields; every implementer gets them too (own extension blocks)
+    for t in by("interface"):
+        if rng.random() < 0.4:
+            fs = fresh_fields(None, rng.randint(1, 2))
+            extra_iface_fields[t.name] = fs
+            for impl in [t] + [x for x in by("object", "interface") if t.name in x.ifaces]:
+                e = G.Type(impl.kind, impl.name)
+                e.fields = [f.copy() for f in fs]
+                defs.append(G.type_sdl(e, extend=True))
+            labels.append("fields")
+    # phase 2: members of every kind
     for t in spec.types:
         if rng.random() < 0.5:
             continue
         for _ in range(rng.randint(1, 2)):  # possibly two extensions of the same type
             e = G.Type(t.kind, t.name)
-            if t.kind in ("object", "interface"):
-                have = {f.name for f in t.fields}
-                for i in range(rng.randint(0, 2)):
-                    f = g.out_field(spec, have | {x.name for x in e.fields})
-                    f.name = "x" + str(len(defs)) + "_" + f.name
-                    e.fields.append(f)
+            if t.kind == "object":
+                e.fields = fresh_fields(None, rng.randint(0, 2))
                 # implement an additional interface (with all its fields and its ancestors)
-                if t.kind == "object" and rng.random() < 0.4:
-                    cand = [i for i in by("interface") if i.name not in t.ifaces and i.name != t.name
-                            and not getattr(t, "_ext_ifaces", set()) & {i.name}]
+                if rng.random() < 0.4:
+                    already = set(t.ifaces) | ext_ifaces.get(t.name, set())
+                    cand = [i for i in by("interface") if i.name not in already]
                     if cand:
                         i = rng.choice(cand)
-                        already = set(t.ifaces) | getattr(t, "_ext_ifaces", set())
                         add = [a for a in i.ifaces + [i.name] if a not in already]
-                        t._ext_ifaces = already | set(add)
+                        ext_ifaces[t.name] = already | set(add)
                         e.ifaces = add
-                        names = have | {x.name for x in e.fields} | getattr(t, "_ext_fields", set())
+                        names = {f.name for f in t.fields}
+                        for x in already:
+                            names |= {f.name for f in spec.type(x).fields}
+                            names |= {f.name for f in extra_iface_fields.get(x, [])}
                         for a in add:
-                            for f in spec.type(a).fields:
+                            for f in spec.type(a).fields + extra_iface_fields.get(a, []):
                                 if f.name not in names:
                                     e.fields.append(f.copy())
                                     names.add(f.name)
-                        t._ext_fields = names
                 if not e.fields and not e.ifaces:
                     continue
-                labels.append("fields" if e.fields else "interfaces")
+                if e.fields:
+                    labels.append("fields")
                 if e.ifaces:
                     labels.append("interfaces")
             elif t.kind == "union":
-                have = set(t.members) | getattr(t, "_ext_members", set())
+                have = set(t.members) | ext_members.get(t.name, set())
                 cand = [o.name for o in by("object") + new_objs if o.name not in have]
                 if not cand:
                     continue
                 e.members = [rng.choice(cand)]
-                t._ext_members = have | set(e.members)
+                ext_members[t.name] = have | set(e.members)
                 labels.append("union_members")
             elif t.kind == "enum":
-                e.values = [G.EnumVal("X%d_%d" % (len(defs), i), g.text(0.3), g.reason(0.3))
+                uid[0] += 1
+                e.values = [G.EnumVal("X%d_%d" % (uid[0], i), g.text(0.3), g.reason(0.3))
                             for i in range(rng.randint(1, 2))]
                 labels.append("enum_values")
             elif t.kind == "input":
+                uid[0] += 1
                 if t.one_of:
-                    e.inputs = [G.Arg("x%d_in" % len(defs), G.N(rng.choice(g.input_names)), None, g.text(0.3))]
+                    e.inputs = [G.Arg("x%d_in" % uid[0], G.N(rng.choice(g.input_names)), None, g.text(0.3))]
                 else:
-                    e.inputs = [G.Arg("x%d_in" % len(defs), G.N(rng.choice(G.BUILTIN_SCALARS)),
-                                      g.default(spec, G.N("Int")) if rng.random() < 0.3 else None, g.text(0.3))]
-                    if e.inputs[0].default is not None:
+                    e.inputs = [G.Arg("x%d_in" % uid[0], G.N(rng.choice(G.BUILTIN_SCALARS)), None, g.text(0.3))]
+                    if rng.random() < 0.3:
                         e.inputs[0].type = G.N("Int")
+                        e.inputs[0].default = ("v", rng.choice([0, 5, -3, None]))
                 labels.append("input_fields")
             else:
                 continue
             defs.append(G.type_sdl(e, extend=True))
-    for t in spec.types:
-        for k in ("_ext_ifaces", "_ext_fields", "_ext_members"):
-            if hasattr(t, k):
-                delattr(t, k)
     dnames = {d.name for d in spec.directives}
     for _ in range(rng.randint(0, 2)):
         n = g.fresh("dir", dnames | {"skip", "include", "deprecated", "specifiedBy", "oneOf", "defer", "stream"})
